@@ -29,6 +29,10 @@ var c19Script = "title: Start\n---\n" +
 	`{cap("number-id", number($x))}{cap("bool-roundtrip", bool(string($b)))}{cap("bool-id", bool($b))}{cap("string-id", string($s))}{cap("string-b", string($b))}` +
 	"\n{cap(\"bad-number\", number($s))}\n{cap(\"bad-bool\", bool($s))}\nlast\n===\n"
 
+// c19FailingFirst: every numeric built-in is first called with a string argument (an error, C06) on the same runner:
+// the contracts hold for the calls that follow all the same.
+var c19FailingFirst = "{floor($s)}\n{ceil($s)}\n{inc($s)}\n{dec($s)}\n{integer($s)}\n{decimal($s)}\n{round($s)}\n{round_places($s, $n)}\n{round_places($x)}\n"
+
 func bigF(f float64) *big.Float { return new(big.Float).SetPrec(200).SetFloat64(f) }
 
 func ulp(x float64) float64 {
@@ -47,7 +51,11 @@ func runC19(c c19Case) Verdict {
 	storer.SetNumberValue("n", float64(c.N))
 	storer.SetBooleanValue("b", c.B)
 	storer.SetStringValue("s", c.S)
-	dr, err := ysgo.NewDialogueRunner(storer, "abc", strings.NewReader(c19Script))
+	script := c19Script
+	if c.B {
+		script = strings.Replace(c19Script, "---\n", "---\n"+c19FailingFirst, 1)
+	}
+	dr, err := ysgo.NewDialogueRunner(storer, "abc", strings.NewReader(script))
 	if err != nil {
 		return failf("script does not load: %v", err)
 	}
@@ -59,6 +67,13 @@ func runC19(c c19Case) Verdict {
 		return variable.NewString(""), nil
 	})
 	h := &host{dr: dr, storer: newRecStorer()}
+	if c.B {
+		for i := 0; i < 9; i++ {
+			if ev := h.step(0); ev.K != "err" {
+				return failf("ill-typed call %d of %q must be an error, got %s", i+1, c19FailingFirst, ev)
+			}
+		}
+	}
 	if ev := h.step(0); ev.K != "line" {
 		return failf("x = %v (%s), n = %d: the built-ins failed: %s", x, c.X.NBits, c.N, ev)
 	}
